@@ -55,7 +55,7 @@ theorem exec_callExpr {G : GCtx} (ok : G.OK) (fuel : Nat) (hcs : ∀ k, k < fuel
     (hstack : G.spv ≤ sp + dep * G.smax) (g : String) (args : List X.Expr) (hg : g ∈ G.pnames)
     (hp : ∀ e ∈ args, pureE e = true) (σ : X.St)
     (gs : GS) (code : Code) (gs' : GS) (i : Nat) (a b : Word) (mem : Mem)
-    (hgen : genExpr (G.ctxOf pi) (optExpr (annotate (fun _ => none) (.call g args))) .A gs = .ok (code, gs'))
+    (hgen : genExpr (G.ctxOf pi) (optExpr (annotate G.rho (.call g args))) .A gs = .ok (code, gs'))
     (hat : At G.env.ds i (lowerCode G.cg code)) (hr : Rep (KOf G pi sp dep hi) σ mem)
     (hsz : gs'.size ≤ G.S pi) (hnl : pi.p.locals.length ≤ gs.offset) (hci : ConstsIn (KOf G pi sp dep hi) gs') :
     match X.eval fuel G.xc (.call g args) σ with
@@ -284,7 +284,7 @@ theorem condOK_pp (c : X.Expr) (hpp : ppE G.pnames G.xc.impure c = true) : CondO
 
 /-- A right-hand side with calls of pure functions. -/
 theorem execE_pp (e : X.Expr) (hpp : ppE G.pnames G.xc.impure e = true) (st : X.St) :
-    ExecE (KOf G pi sp dep hi) (optExpr (annotate (fun _ => none) e)) st (X.eval F G.xc e st) := by
+    ExecE (KOf G pi sp dep hi) (optExpr (annotate G.rho e)) st (X.eval F G.xc e st) := by
   intro gs code gs' i a b mem hgen hat hr hsz hnl hci
   have hC := condOK_pp ok pk hpi sp dep hi hlo hspv hstack F hcs e hpp
   unfold OutE
@@ -438,10 +438,10 @@ theorem execS_callStmt {G : GCtx} (ok : G.OK) (fuel : Nat) (hcs : ∀ k, k < fue
     {pi : PInfo} (hpi : pi ∈ G.procs) (sp dep : Nat) (hi : Nat → Word) (hlo : G.lo ≤ sp) (hspv : sp + G.S pi + pi.po + pi.p.formals.length ≤ G.spv + 1)
     (hstack : G.spv ≤ sp + dep * G.smax) (g : String) (args : List X.Expr) (hg : g ∈ G.pnames)
     (hp : ∀ e ∈ args, pureE e = true) (σ : X.St) :
-    ExecS (KOf G pi sp dep hi) (G.iEpi pi) (optStmt (annotS (fun _ => none) (.call g args))) σ
+    ExecS (KOf G pi sp dep hi) (G.iEpi pi) (optStmt (annotS G.rho (.call g args))) σ
       (X.exec fuel G.xc (.call g args) σ) := by
   intro gs code gs' i a b mem hgen hat hr hsz hnl hci
-  have hopt : optStmt (annotS (fun _ => none) (.call g args)) = .call (-1) g (optArgsOf (fun _ => none) args) := by
+  have hopt : optStmt (annotS G.rho (.call g args)) = .call (-1) g (optArgsOf G.rho args) := by
     simp only [annotS, optStmt, optArgs_map]
   rw [hopt, genStmt_call_eq] at hgen
   rw [if_neg (by decide)] at hgen
@@ -497,7 +497,7 @@ theorem execS_callStmt {G : GCtx} (ok : G.OK) (fuel : Nat) (hcs : ∀ k, k < fue
 def StmtLSpec (G : GCtx) (fuel : Nat) : Prop :=
   ∀ pi ∈ G.procs, ∀ sp dep hi, G.lo ≤ sp → sp + G.S pi + pi.po + pi.p.formals.length ≤ G.spv + 1 → G.spv ≤ sp + dep * G.smax →
     ∀ ss σ, okS5L G.pk G.pnames G.xc.impure ss = true →
-      ExecSL (KOf G pi sp dep hi) (G.iEpi pi) (optStmts (annotSL (fun _ => none) ss)) σ (X.execSeq fuel G.xc ss σ)
+      ExecSL (KOf G pi sp dep hi) (G.iEpi pi) (optStmts (annotSL G.rho ss)) σ (X.execSeq fuel G.xc ss σ)
 
 theorem callE_inv (ps : List String) (e : X.Expr) (h : callE ps e = true) :
     ∃ g args, e = .call g args ∧ g ∈ ps ∧ ∀ a ∈ args, pureE a = true := by
@@ -535,7 +535,7 @@ theorem all_correct {G : GCtx} (ok : G.OK) : ∀ fuel, StmtSpec G fuel ∧ StmtL
         | stop => exact execS_stop _ _ wf _ σ
         | ret e =>
           simp only [okS5, rhs5, Bool.or_eq_true, Bool.and_eq_true] at hok
-          have : optStmt (annotS (fun _ => none) (.ret e)) = .ret (optExpr (annotate (fun _ => none) e)) := by
+          have : optStmt (annotS G.rho (.ret e)) = .ret (optExpr (annotate G.rho e)) := by
             simp [annotS, optStmt]
           rw [this]
           rcases hok with (hpure | hcall) | ⟨hpk, hpp⟩
@@ -551,7 +551,7 @@ theorem all_correct {G : GCtx} (ok : G.OK) : ∀ fuel, StmtSpec G fuel ∧ StmtL
               hgen hat hr hsz hnl hci
         | assign n e =>
           simp only [okS5, rhs5, Bool.or_eq_true, Bool.and_eq_true] at hok
-          have : optStmt (annotS (fun _ => none) (.assign n e)) = .assign n (optExpr (annotate (fun _ => none) e)) := by
+          have : optStmt (annotS G.rho (.assign n e)) = .assign n (optExpr (annotate G.rho e)) := by
             simp [annotS, optStmt]
           rw [this]
           rcases hok with (hpure | hcall) | ⟨hpk, hpp⟩
@@ -589,8 +589,8 @@ theorem all_correct {G : GCtx} (ok : G.OK) : ∀ fuel, StmtSpec G fuel ∧ StmtL
           exact execS_syscall (KOf G pi sp dep hi) _ wf _ id args σ hok.1 hok.2
         | assignSub n i e =>
           simp only [okS5, Bool.and_eq_true] at hok
-          have : optStmt (annotS (fun _ => none) (.assignSub n i e))
-              = .assignSub n (optExpr (annotate (fun _ => none) i)) (optExpr (annotate (fun _ => none) e)) := by
+          have : optStmt (annotS G.rho (.assignSub n i e))
+              = .assignSub n (optExpr (annotate G.rho i)) (optExpr (annotate G.rho e)) := by
             simp [annotS, optStmt]
           rw [this]
           exact execS_assignSub (KOf G pi sp dep hi) _ wf _ n i e σ hok.1 hok.2
@@ -615,7 +615,7 @@ theorem all_correct {G : GCtx} (ok : G.OK) : ∀ fuel, StmtSpec G fuel ∧ StmtL
           obtain ⟨c, gs1, cs, h1, h2, hcode⟩ := genStmts_cons_inv _ _ _ _ _ _ hg
           subst hcode
           have e2 : Eff gs1 gs' := by
-            have := genStmt_eff (KOf G pi sp dep hi).ctx (.seq (optStmts (annotSL (fun _ => none) rest))) gs1 cs gs'
+            have := genStmt_eff (KOf G pi sp dep hi).ctx (.seq (optStmts (annotSL G.rho rest))) gs1 cs gs'
               (by rw [genStmt_seq]; exact h2)
             exact this
           have e1 := genStmt_eff _ _ _ _ _ h1
